@@ -3658,8 +3658,10 @@ coap_handle_response_send_block(coap_session_t *session, coap_pdu_t *sent,
                               lg_xmit->length,
                               lg_xmit->data,
                               block.num,
-                              block.szx))
+                              block.szx)) {
+            coap_delete_pdu(pdu);
             goto fail_body;
+          }
           if (coap_send_internal(session, pdu) == COAP_INVALID_MID)
             goto fail_body;
         }
